@@ -712,6 +712,11 @@ func (f *MemFile) WriteAt(b []byte, off int64) (n int, err error) {
 		return 0, &fs.PathError{Op: "writeat", Path: f.name, Err: avfs.ErrNegativeOffset}
 	}
 
+	if len(b) == 0 {
+		// As os.File.WriteAt : there is nothing to write and the file is not extended up to off.
+		return 0, nil
+	}
+
 	avfs.VerifBeforeLock(&f.mu, false)
 	f.mu.RLock()
 	defer f.mu.RUnlock()
